@@ -49,11 +49,21 @@ def config_with(work, name, class_jsons):
     return d
 
 
-def arity_rows(recv, meth, kwargs):
-    """rows calling recv.meth with k = 0..6 positional arguments (+ the given keyword arguments)"""
+TYPE_LIT = {"Int": "1", "Integer": "1", "String": "\"s\"", "Float": "1.5", "Symbol": ":a", "Bool": "true", "Array": "[1]", "Hash": "{a: 1}"}
+
+
+def arity_rows(recv, meth, kwargs, declared=None):
+    """rows calling recv.meth with k = 0..6 positional arguments (+ the given keyword arguments); the j-th
+    argument is a literal of the class the j-th declared positional parameter accepts (no type errors)"""
+    lits = []
+    for a in declared or []:
+        if a.get("key") and not a["key"].startswith("*"):
+            continue
+        t = (a.get("type") or ["Untyped"])[0].lstrip("?*")
+        lits.append(TYPE_LIT.get(t, "1"))
     rows = []
     for k in range(7):
-        args = ["1"] * k + kwargs
+        args = [(lits[j] if j < len(lits) else "1") for j in range(k)] + kwargs
         rows.append("%s.%s(%s)" % (recv, meth, ", ".join(args)))
     return rows
 
@@ -67,5 +77,5 @@ def accepted_by_row(out, first_row, nrows):
     res = []
     for i in range(nrows):
         msgs = bad.get(first_row + i, [])
-        res.append(not any(("too few" in m or "too many" in m or "extra argument" in m or "not defined" in m) for m in msgs))
+        res.append(not msgs)      # arguments are literals of the declared classes: any diagnostic is a rejection
     return res
